@@ -294,6 +294,10 @@ def run(tier, seed):
     chk.add_rule("C04.S.names_reserved", ok, sites, failing)
     ok, sites, failing = rule_slice_operands()
     chk.add_rule("C04.S.slice_operands", ok, sites, failing)
+    from .C10 import TLS
+    ok, sites, failing = frame.rule_tls(TLS)
+    chk.add_rule("C04.S.tls", ok, sites, failing, detail="'in-place updates are ordered after the reads they depend on' rests on the dependency stack of tracer.depend_on being per thread: a stack shared between threads "
+                 "makes one trace record the input tracers of another")
     from ..kernels import c04_fuse, c04_scope, c04_api_inner
     from ..kernels.base import run_kernel
     for k in c04_fuse.KERNELS + c04_scope.KERNELS + c04_api_inner.KERNELS:
